@@ -12,7 +12,7 @@ def run(ctx):
     n = {"quick": 2000, "thorough": 40000}[ctx.tier]
     nx = {"quick": 3000, "thorough": 10 ** 9}[ctx.tier]   # thorough: the whole enumeration (~132 000 layouts)
     nseq = {"quick": 120, "thorough": 4000}[ctx.tier]     # sequences of 2-4 runs of one keep-balance process against a stub cluster
-    ncoll = {"quick": 800, "thorough": 30000}[ctx.tier]  # blocks whose Desired is derived from collections by the real code
+    ncoll = {"quick": 600, "thorough": 30000}[ctx.tier]  # blocks whose Desired is derived from collections by the real code
     rep = os.environ.get("VERIF_C05_BALANCE_GO")
     replace = {"services/keep-balance/balance.go": rep} if rep else None
 
@@ -57,7 +57,16 @@ def run(ctx):
                          "enumeration of two small scopes (X1: 1-4 single-mount services, replica state x Replication x one shared pair x "
                          "desired 1-3; X2: 2 services x 1-2 mounts, two classes, RO flags) - complete in the thorough tier, strided sample in "
                          "quick; distinct by hash of the case term; non-trivial = at least 2 mounts after cleanupMounts and (some desired>0 "
-                         "or some replica)",
+                         "or some replica); c05coll: the same layout strata with Desired derived by the real addCollection/IncreaseDesired from 0-4 "
+                         "collections (0-3 storage classes each in any order, repeated, or offered by no mount; replication_desired null or 0-4; "
+                         "some collections referencing only another block) and the change sets computed by ComputeChangeSets (non-trivial: also >= 1 "
+                         "referencing collection); c05seq: 2-4 runs of one keep-balance process (Server.runOnce) against a stub cluster of 3-5 "
+                         "services (read-only mounts/services, shared and blank devices, classes, 2-4 blocks, 1-4 collections), five strata (stable "
+                         "service list with failing requests; changing service list; a failing ClearTrashLists PUT right after a change; random incl. "
+                         "restarts; keepstores holding lists of an earlier process), one failing request per run chosen by kind and target, four "
+                         "failure kinds (non-trivial = >= 2 runs and >= 1 complete committing run)",
                     assumptions=["rendezvous rank of the services and the rendezvousLess order of device ids are computed by the real code and passed to the model (C12 proves what the rank is)",
                                  "sort.Slice is modelled as a sort by the comparator; outputs are compared exactly only when the comparator has no ties, otherwise the observed output is judged by spec_b alone",
-                                 "physical-device reading of a layout: devices = distinct non-blank DeviceIDs + one per blank-DeviceID mount, over the mounts that survive cleanupMounts"])
+                                 "physical-device reading of a layout: devices = distinct non-blank DeviceIDs + one per blank-DeviceID mount, over the mounts that survive cleanupMounts",
+                                 "c05seq: a keepstore keeps the last trash list it accepted until it accepts another one and may carry it out at any time (matching mount and mtime, old enough, writable); the stub carries a list out right after serving an index only when that list was accepted under another service list, and otherwise only on a copy of the cluster after a complete run (so nothing moves on a correct tree and no verdict depends on timing)",
+                                 "c05seq: in a whole run the source of a Pull is the service of whichever index arrived first: the model is compared on trash lists, pull targets and the lost-blocks report, pull sources are judged by the specification only"])
